@@ -71,6 +71,7 @@ func (e Ev) String() string {
 
 type compPlan struct {
 	FailStart    bool
+	FailStartGen int // if >0, Start fails only for the instance of that configuration generation
 	FailShutdown bool
 	ParkStart    bool // Start parks on the world's gate until released
 	ParkShutdown bool
@@ -191,7 +192,7 @@ func (b *stubBase) Start(_ context.Context, host component.Host) error {
 	if p.ParkStart {
 		b.w.gate.Park("start:" + b.k())
 	}
-	if p.FailStart {
+	if p.FailStart && (p.FailStartGen == 0 || p.FailStartGen == b.gen) {
 		b.w.emit("start-fail", b.k(), b.gen, "")
 		return fmt.Errorf("%s: %w", b.k(), errStubStart)
 	}
@@ -738,4 +739,11 @@ func typeOf(id string) string {
 		return id[:i]
 	}
 	return id
+}
+
+func evKind(ev string) string {
+	if i := strings.IndexByte(ev, ':'); i > 0 {
+		return ev[:i]
+	}
+	return ev
 }
